@@ -48,6 +48,16 @@ ALT_KEYS = {
     "mapped": ("ipv4-mapped-address-is-a-different-identity", lambda r: r["got"] == 0),
     "mac8colon": ("eui64-mac-text-looked-up-as-ip",
                   lambda r: r["variant"]["maclen"] == 8 and r["got"] > 0 and r["got"] != r["want"]),
+    # the same lookup, other direction: nobody registered the mac, the text read as an address
+    # lies in a registered ::/0, and the lookup stops at the mac reading
+    "mac8colon#none": ("mac-shaped-ipv6-text-not-looked-up-as-address",
+                       lambda r: r["variant"]["maclen"] == 8 and r["got"] == 0 and r["want"] > 0),
+    # FindLoose (query log / statistics) against the precedence of the filtering: the harness marks
+    # the two shapes of the finding (a mac-like ClientID taken for that mac; the answer of the strict
+    # lookup of the zone-less address instead of the exact address in another zone)
+    "loose": ("findloose-precedence-differs-from-filtering",
+              lambda r: r["shape"] == "asfinding" and r["got"] not in r["admits"]),
+    "mappednet": ("find-by-mapped-cidr-text-finds-nothing", lambda r: r["got"] == 0 and r["want"] > 0),
 }
 # Hard flags: concretisations that change what is REGISTERED or leased, so a
 # defect they expose ends the tour.  While the finding is open they are
@@ -58,6 +68,8 @@ ALT_KEYS = {
 HARD_FLAGS = {
     "mapstore": ("ipv4-mapped-address-is-a-different-identity", ("net", "kinds", "set")),
     "oddlease": ("lease-mac-odd-length-panics", ("misc",)),
+    # IPv6 base whose address texts are also well-formed EUI-64s (aa:bb:cc:dd:ee:ff:11:5b)
+    "macish6": ("mac-shaped-ipv6-text-not-looked-up-as-address", ("net", "kinds", "set", "misc")),
 }
 PROBE_SEGMENTS = 4
 
@@ -82,7 +94,7 @@ def classify_trace_lookup(q):
     alt = q.get("alt") or ""
     if alt not in ALT_KEYS:
         return None
-    if alt in ("nettext", "mapped") and q.get("t") == "find" and q.get("r") != "":
+    if alt in ("nettext", "mapped", "mappednet") and q.get("t") == "find" and q.get("r") != "":
         return None
     return ALT_KEYS[alt][0]
 
@@ -114,7 +126,7 @@ class Graph:
         i = len(self.keys)
         self.index[k] = i
         self.keys.append(k)
-        self.tables.append({"fi": rec["fi"], "fa": rec["fa"], "ap": rec["ap"]})
+        self.tables.append({"fi": rec["fi"], "fa": rec["fa"], "ap": rec["ap"], "lo": rec["lo"], "fx": rec["fx"]})
         self.sampled.append(bool(rec["s"]))
         self.raw_edges.append(rec["e"])
 
@@ -228,7 +240,8 @@ def make_variants(seed, uni):
         r = random.Random("%d/%s/%d" % (seed, uni, i))
         return {"maclen": [6, 8, 20][i % 3], "v6": i % 4 == 3 or uni == "zone", "seed": r.randrange(1 << 40),
                 "names": r.randrange(3), "global": r.randrange(16), "w": 4, "maccolon8": r.randrange(2) == 1,
-                "mapstore": "mapstore" in on, "oddlease": "oddlease" in on}
+                "mapstore": "mapstore" in on, "oddlease": "oddlease" in on,
+                "macish6": "macish6" in on and uni != "zone" and i % 8 == 3}
     return v
 
 
@@ -241,7 +254,7 @@ def write_input(path, graphs, chunks):
             for i, k in enumerate(g.keys):
                 t = g.tables[i]
                 fh.write(json.dumps({"t": "s", "u": g.name, "i": i, "k": list(k), "fi": t["fi"], "fa": t["fa"],
-                                     "ap": t["ap"]}, separators=(",", ":")) + "\n")
+                                     "ap": t["ap"], "lo": t["lo"], "fx": t["fx"]}, separators=(",", ":")) + "\n")
         for c in chunks:
             d = dict(c)
             if isinstance(d["steps"], array):
@@ -448,9 +461,10 @@ def run(ctx):
         for k, sb in enumerate(softs):
             if (k, sb["alt"], sb["what"]) not in seen:
                 raise vlib.Inconclusive("a soft lookup disagreement did not reproduce: %s" % sb["what"])
-            key, pred = ALT_KEYS.get(sb["alt"], (None, None))
-            if key and not pred(sb):
-                key = None
+            key = None
+            for name, (k2, pred) in ALT_KEYS.items():
+                if name.split("#")[0] == sb["alt"] and pred(sb):
+                    key = k2
             rec = dict(sb)
             rec["seed"] = ctx.seed
             rec["chunk_keys"] = {"u": sb["u"], "variant": sb["variant"], "start": list(gmap[sb["u"]].keys[sb["state"]]), "steps": []}
@@ -482,6 +496,8 @@ def run(ctx):
             pc["variant"][flag] = True
             if flag == "mapstore":
                 pc["variant"]["v6"] = False
+            if flag == "macish6":
+                pc["variant"]["v6"] = True
             pc["id"] = len(probe_chunks)
             pc["_flag"] = flag
             probe_chunks.append(pc)
